@@ -180,6 +180,27 @@ def main():
         finish(2)
 
     cov.update(rep.coverage())
+    # 2b. the executor itself: a sample of this run's cases re-evaluated inside the Coq kernel (vm_compute of the same
+    # Gallina definitions, printed by the same Gallina printers) must equal what the extracted OCaml executor answered
+    ks = getattr(rep, 'ksample', [])
+    if ks and not replay:
+        import kexec
+        kr = kexec.run_kernel([c for (c, _) in ks], os.path.join(workdir, 'kernel'))
+        if 'error' in kr:
+            # another check may have been rebuilding the .vo files under us: once more, holding the build lock
+            with lib.Lock('coq'):
+                kr = kexec.run_kernel([c for (c, _) in ks], os.path.join(workdir, 'kernel'))
+        agree = sum(1 for i, (c, mres) in enumerate(ks) if kr.get(i) == mres)
+        done = sum(1 for i in range(len(ks)) if i in kr)
+        bad = [(c[:300], mres[:300], kr[i][:300]) for i, (c, mres) in enumerate(ks) if i in kr and kr[i] != mres][:3]
+        cov['kernel_crosscheck'] = {'sampled': len(ks), 'evaluated_in_kernel': done, 'agree_with_extracted_executor': agree,
+                                    'how': 'coqc: Eval vm_compute in (ch_dec/ch_avps/ch_type/ch_enc/ch_enca ...) over Model/Show.v'}
+        if 'error' in kr:
+            cov['kernel_crosscheck']['coqc_error'] = kr['error'][-600:]
+        if bad:
+            print('INTERNAL: extracted executor and in-kernel evaluation differ: %s' % (bad,))
+            evidence['coverage'].update({'internal_error': 'kernel cross-check failed: %s' % (bad,)})
+            finish(2)
     cov['source_differs_from_validated_tree'] = lib.source_changed()
     cov['budget_multiplier'] = ctx.boost
     # 3. verdict
